@@ -310,6 +310,8 @@ HOSTILE = [None, True, False, 0, 1, -1, 3, 2.5, float('inf'), float('-inf'), flo
            '', '5', '1.5', 'abc', '!!!!', 'YW Jj', 'YWJj\n', 'YWJ', '=', [], [1], [1, 2, 3], [[1, 2]], [['a', 1]],
            [None], {}, {'a': 1}, {'zz': 1}, {'a': None}, 'a\0b', 'ä', 1.0, 0.0, 0.9999999, -0.0, 1e-320, 'a',
            'true', 'on', [True], [[]], {'a': {}}, 2 ** 53 + 1, -2 ** 63, 1.5e308 * 1,
+           # fractions a few ulp away from a whole number (float noise of a driver's calculation)
+           0.9999999999999999, 1.0000000000000002, 3.0000000000000004, 28.999999999999996, 4.999999999999999, -0.9999999999999999, 100.00000000000001,
            # big ones (error messages show the offending value, possibly shortened)
            {f'k{i}': i for i in range(50)}, list(range(60)), 'x' * 150, [[0] * 45], {'a': list(range(50))}]
 
